@@ -58,6 +58,13 @@ Definition run_script (p : program) (cap : N) (init : list ievent) : sresult :=
   let '(hs, en, _, _) := script_start cap init in
   run s_time s_sec (script_handler p) (script_fuel cap init) hs en.
 
+(** the general driver of the correspondence check: initial Schedule calls, SetCurrentTime(t0), Run.
+    [t0 = 0] is the plain case ([run_script_at_0]); a [t0] after some queued event makes
+    dispatchNext panic ("cannot run event in the past"). *)
+Definition run_script_at (p : program) (cap : N) (init : list ievent) (t0 : N) : sresult :=
+  let '(hs, en, _, _) := script_start cap init in
+  run s_time s_sec (script_handler p) (script_fuel cap init) hs (set_current_time en t0).
+
 (** the queue contents in pop order, as unsafeEventQueue.snapshot (sort by less) reports them *)
 Definition snapshot (q : @queue sev) : list sev :=
   map fst (hdrain (qless s_time) (length (q_heap q)) (q_heap q)).
